@@ -156,7 +156,7 @@ def bodyExpected (outcome : Bytes → BodyOutcome) (data : Bytes) : Bytes :=
 theorem bodyPhase_readable (req : Bool) (outcome : Bytes → BodyOutcome) (r : Req) (data : Bytes)
     (h : Coherent r data) :
     (bodyPhase req outcome r).1.body = some (bodyExpected outcome data) ∧
-    (outcome data ≠ .rewriteFails → GetOK (bodyPhase req outcome r).1 (bodyExpected outcome data)) ∧
+    GetOK (bodyPhase req outcome r).1 (bodyExpected outcome data) ∧
     (r.contentLength = data.length →
       (bodyPhase req outcome r).1.contentLength = (bodyExpected outcome data).length) := by
   obtain ⟨hb, hg⟩ := h
@@ -167,17 +167,14 @@ theorem bodyPhase_readable (req : Bool) (outcome : Bytes → BodyOutcome) (r : R
   unfold bodyPhase bodyExpected
   simp only [hb]
   cases data with
-  | nil => exact ⟨c1.1, fun _ => c1.2, c2⟩
+  | nil => exact ⟨c1.1, c1.2, c2⟩
   | cons x xs =>
     simp only
     cases ho : outcome (x :: xs) with
-    | reject => exact ⟨c1.1, fun _ => c1.2, c2⟩
-    | accept => exact ⟨c1.1, fun _ => c1.2, c2⟩
+    | reject => exact ⟨c1.1, c1.2, c2⟩
+    | accept => exact ⟨c1.1, c1.2, c2⟩
     | rewrite nd => simp [GetOK]
-    | rewriteFails =>
-      refine ⟨?_, fun hne => absurd rfl hne, ?_⟩
-      · cases r.getBody <;> simp [c1.1]
-      · intro hc; cases r.getBody <;> simp [c2 hc]
+    | rewriteFails => exact ⟨c1.1, c1.2, c2⟩
 
 /-- The bytes the next handler is entitled to after the whole validation: the original ones, or the re-encoded
 body when the body phase ran and set defaults. -/
@@ -188,19 +185,19 @@ def expectedAfter (c : Cfg) (outcome : Bytes → BodyOutcome) (r : Req) (data : 
 theorem validateStream_coherent (c : Cfg) (outcome : Bytes → BodyOutcome) (r : Req) (data : Bytes)
     (h : Coherent r data) :
     (validateStream c outcome r).1.body = some (expectedAfter c outcome r data) ∧
-    (outcome data ≠ .rewriteFails → GetOK (validateStream c outcome r).1 (expectedAfter c outcome r data)) ∧
+    GetOK (validateStream c outcome r).1 (expectedAfter c outcome r data) ∧
     (r.contentLength = data.length →
       (validateStream c outcome r).1.contentLength = (expectedAfter c outcome r data).length) := by
   obtain ⟨hc, hl, _⟩ := secPhase_coherent c.hasAuthFunc r c.reqs data h
   unfold validateStream expectedAfter
   cases h1 : (!(secPhase c.hasAuthFunc r c.reqs).2.1 && !c.multi) with
-  | true => simp only [h1, Bool.true_or, ↓reduceIte]; exact ⟨hc.1, fun _ => hc.2, hl⟩
+  | true => simp only [h1, Bool.true_or, ↓reduceIte]; exact ⟨hc.1, hc.2, hl⟩
   | false =>
     cases h2 : (!c.paramsOK && !c.multi) with
-    | true => simp only [h1, h2, Bool.false_eq_true, Bool.true_or, Bool.or_true, ↓reduceIte]; exact ⟨hc.1, fun _ => hc.2, hl⟩
+    | true => simp only [h1, h2, Bool.false_eq_true, Bool.true_or, Bool.or_true, ↓reduceIte]; exact ⟨hc.1, hc.2, hl⟩
     | false =>
       cases h3 : c.hasBodySpec with
-      | false => simp only [h1, h2, h3, Bool.false_eq_true, Bool.not_false, Bool.or_true, ↓reduceIte]; exact ⟨hc.1, fun _ => hc.2, hl⟩
+      | false => simp only [h1, h2, h3, Bool.false_eq_true, Bool.not_false, Bool.or_true, ↓reduceIte]; exact ⟨hc.1, hc.2, hl⟩
       | true =>
         simp only [h1, h2, h3, Bool.false_eq_true, Bool.not_true, Bool.or_false, ↓reduceIte]
         obtain ⟨b1, b2, b3⟩ := bodyPhase_readable c.required outcome _ data hc
